@@ -290,9 +290,14 @@ class ColumnValidateRestoresSchema(Contract):
         I.models[id(CB.get_regex_columns)] = get_regex_columns
 
         def coerce_dtype(I, self_obj, obj, schema=None):
-            k = cur().choose([("ret", None), ("SchemaErrors", None)], "coerce_dtype")
+            # under the contract of ArraySchemaBackend.coerce_dtype (C10 ArrayCoerceDtype): returns the coerced object, or raises ONE
+            # SchemaError(DATATYPE_COERCION) - in both modes, the callee does not know about `lazy`
+            k = cur().choose([("ret", None), ("SchemaError", None)], "coerce_dtype")
             if k == 1:
-                raise PyExc(I.make_exc(SchemaErrors))
+                e = I.make_exc(SchemaError)
+                e.attrs["reason_code"] = SchemaErrorReason.DATATYPE_COERCION
+                cur().ghost["coercion_failed"] = True
+                raise PyExc(e)
             return obj
 
         I.models[id(CB.coerce_dtype)] = coerce_dtype
@@ -339,6 +344,7 @@ class ColumnValidateRestoresSchema(Contract):
                 out.update(self._written_back(data))
         if exc.cls is SchemaError:
             # (a regex that matches no column is reported as a single INVALID_COLUMN_NAME error in both modes)
+            # (C02 / C06: lazy validation raises the COLLECTED error - also when what failed is the coercion of the column)
             out["single_error_only_when_eager_or_regex_without_match"] = lazy is False or cur().ghost.get("regex_no_match", False)
         if exc.cls is SchemaDefinitionError:
             out["definition_error_only_for_drop_without_lazy"] = fld0(schema, "drop_invalid_rows") is True and lazy is False
